@@ -25,7 +25,9 @@ def scenarios(pid, thorough):
         kinds = ['apply', 'imap', 'imapu', 'map'] if pid == 'C04' else ['apply', 'imap']
         hows = [['signal', 9], ['exit', 3], ['signal', 11], ['exit', 0]]
         if thorough:
-            hows += [['signal', 15], ['signal', 6], ['exit', 155], ['exit', 255], ['signal', 10]]
+            # only signals a worker does not handle itself (its termination handler turns TERM, ABRT,
+            # HUP, QUIT, USR1 ... into an exception inside the task: that is not a death)
+            hows += [['signal', 7], ['signal', 8], ['exit', 155], ['exit', 255], ['signal', 4]]
         for ki, k in enumerate(kinds):
             for hi, h in enumerate(hows):
                 if not thorough and (ki + hi) % 2 and k != 'apply':
